@@ -126,6 +126,21 @@ def run_cli(name, cmd, path, timeout):
         return name, "unknown", time.time() - t0, "timeout"
 
 
+def _conjuncts(g):
+    """top-level conjuncts of a goal  (A -> (B and C)) / (B and C)"""
+    g = z3.simplify(g)
+    pre = []
+    while z3.is_implies(g):
+        pre.append(g.arg(0))
+        g = g.arg(1)
+    if not z3.is_and(g):
+        return [g]
+    cs = list(g.children())
+    if pre:
+        cs = [z3.Implies(z3.And(*pre) if len(pre) > 1 else pre[0], c) for c in cs]
+    return cs
+
+
 def discharge(o, quick_ms=4000, cli_timeout=20, outdir=None, extra_rules=(), rounds=3, want_model=True, fuel=1, nla=True):
     t0 = time.time()
     if getattr(o, "inline", None):
@@ -139,7 +154,16 @@ def discharge(o, quick_ms=4000, cli_timeout=20, outdir=None, extra_rules=(), rou
         a = AbsSolver(quick_ms, nla=nla)
         for h in hyps:
             a.add(h)
-        r = a.check_with(neg)
+        conj = _conjuncts(o.goal)
+        if len(conj) > 2:
+            # a conjunctive goal is proved conjunct by conjunct (same hypotheses, same instances)
+            r = z3.unsat
+            for cj in conj:
+                if a.check_with(z3.Not(cj)) != z3.unsat:
+                    r = z3.unknown
+                    break
+        else:
+            r = a.check_with(neg)
     except NotImplementedError:
         r = z3.unknown
     dt = time.time() - t0
